@@ -236,7 +236,8 @@ class RoundtripUnit(corr.Unit):
         a, b_ = flatten(out["inrun"]), flatten(out["post"])
         bad = [(k, a[k], b_.get(k)) for k in a if b_.get(k) is None or abs(a[k] - b_[k]) > 0.011 + 1e-6 * abs(a[k])]
         if bad:
-            if not out["has_price_column"] and case["strategy"] == "balanced_market":
+            derived = ("power procurement", "value added tax", "total (gross)")
+            if not out["has_price_column"] and case["strategy"] == "balanced_market" and all(k.split("/")[-1] in derived for k, _, _ in bad):
                 return [("C18/cost-roundtrip-no-price-column", "all prices are zero, the CSV has no price column: in-run uses the fixed commodity charge, "
                          "the file reader substitutes a price series of zeros: %s: %s" % (bad[:2], d))]
             return [("C18/cost-roundtrip", "costs from the written files differ from the in-run costs: %s: %s" % (bad[:4], d))]
